@@ -23,9 +23,37 @@ struct htab {
 	struct htnode *nodes;
 	int cap, n;
 	uint64_t salt;
-	int state_at_fork;
+	int state_at_fork, stale_flag;
 	unsigned long size_at_fork, target_at_fork, size_at_call;
 };
+
+/*
+ * The hash-table work queue (static cds_lfht_workqueue in rculfhash.c, struct private
+ * to workqueue.c) has no accessor in vp_peek.h.  Its address is the ctx argument of the
+ * URCU_VP_WQ_PRE_SLEEP / URCU_VP_WQ_PAUSE hook points; the leading fields are mirrored
+ * here read-only (same layout as struct call_rcu_data's leading fields).  qlen counts
+ * work items queued or being processed.
+ */
+struct wq_mirror {
+	struct cds_wfcq_tail cbs_tail;
+	struct cds_wfcq_head cbs_head;
+	unsigned long flags;
+	int32_t futex;
+	unsigned long qlen;
+};
+static const struct wq_mirror *g_wq;
+
+/* -1 unknown, else number of work items queued or in progress */
+static inline long wq_qlen(void)
+{
+	const struct wq_mirror *w = __atomic_load_n(&g_wq, __ATOMIC_RELAXED);
+	if (!w)
+		return -1;
+	unsigned long q = __atomic_load_n(&w->qlen, __ATOMIC_RELAXED);
+	return q > 1000000 ? -1 : (long) q;
+}
+
+static uint64_t g_stale_flag_seen;
 
 static inline uint64_t hmix(uint64_t z)
 {
@@ -91,23 +119,45 @@ static long g_settle_polls = 24000;
 
 /*
  * Wait until no resize is pending on the table.  Returns 0 when settled.
- * A resize that stays queued (resize_initiated set or size != target) for the
- * whole poll budget while the worker shows no activity at all is a stuck state:
- * the work item exists and nothing will ever process it.
+ *
+ * resize_initiated == 1 while the work queue holds no item is NOT a pending resize:
+ * __cds_lfht_resize_lazy_launch() stores the flag *after* queueing the work, so a
+ * worker that finishes the whole resize in between leaves the flag set for good
+ * (no later lazy resize is launched for that table).  That is unrelated to fork;
+ * it is counted (stale_resize_initiated_flag) and treated as "nothing pending".
+ *
+ * A resize that stays queued (work queue length > 0) for the whole poll budget
+ * while the worker shows no activity at all is a stuck state: the work item exists
+ * and nothing will ever process it.
  */
 static int ht_wait_settled(struct htab *t, const char *role, const char *what, void (*nap)(unsigned))
 {
 	uint64_t act0 = worker_activity();
 	unsigned long s0 = ht_size(t);
+	int stale_run = 0;
+	long minq = 1L << 30;
 	for (long i = 0; i < g_settle_polls; i++) {
 		if (!ht_unsettled(t))
 			return 0;
+		int init1 = __atomic_load_n(&t->ht->resize_initiated, __ATOMIC_SEQ_CST);
+		long q = wq_qlen();
+		int init2 = __atomic_load_n(&t->ht->resize_initiated, __ATOMIC_SEQ_CST);
+		if (q >= 0 && q < minq)
+			minq = q;
+		if (q == 0 && init1 && init2) {
+			if (++stale_run >= 4) {
+				__atomic_fetch_add(&g_stale_flag_seen, 1, __ATOMIC_RELAXED);
+				t->stale_flag = 1;
+				return 0;
+			}
+		} else
+			stale_run = 0;
 		nap(500);
 		if (i == 4000 && getenv("FORKH_DEBUG")) {
 			char dbg[4096];
 			dump_tasks(getpid(), dbg, sizeof(dbg));
-			fprintf(stderr, "forkh[d%d pid %d] slow settle %s %s: initiated=%d size=%lu target=%lu activity=%llu\n%s", G.depth,
-				(int) getpid(), role, what, t->ht->resize_initiated, ht_size(t), ht_target(t),
+			fprintf(stderr, "forkh[d%d pid %d] slow settle %s %s: initiated=%d size=%lu target=%lu qlen=%ld activity=%llu\n%s", G.depth,
+				(int) getpid(), role, what, t->ht->resize_initiated, ht_size(t), ht_target(t), wq_qlen(),
 				(unsigned long long) (worker_activity() - act0), dbg);
 		}
 		if (ht_size(t) != s0) {
@@ -116,15 +166,15 @@ static int ht_wait_settled(struct htab *t, const char *role, const char *what, v
 		}
 	}
 	uint64_t act = worker_activity() - act0;
-	if (!act) {
+	if (!act && minq >= 1 && minq < (1L << 30)) {
 		char key[96];
 		snprintf(key, sizeof(key), "hang:fork:%s:ht-resize-never-ran", role);
-		R_viol(key, "%s %s: lazy resize queued (resize_initiated=%d size=%lu target=%lu) stayed queued for %ld polls and the resize worker showed no activity (no workqueue/resize hook point hit in pid %d, %d tasks)",
-		       role, what, t->ht->resize_initiated, ht_size(t), ht_target(t), g_settle_polls, (int) getpid(),
+		R_viol(key, "%s %s: lazy resize queued (resize_initiated=%d size=%lu target=%lu, work queue length stayed >= %ld) for %ld polls and the resize worker showed no activity (no workqueue/resize hook point hit in pid %d, %d tasks)",
+		       role, what, t->ht->resize_initiated, ht_size(t), ht_target(t), minq, g_settle_polls, (int) getpid(),
 		       count_tasks(getpid()));
 	} else {
-		R_inconcl("%s %s: table did not settle in %ld polls although the worker was active (%llu hook hits)", role, what,
-			  g_settle_polls, (unsigned long long) act);
+		R_inconcl("%s %s: table did not settle in %ld polls (worker hook hits %llu, min work queue length %ld)", role, what,
+			  g_settle_polls, (unsigned long long) act, minq == (1L << 30) ? -1 : minq);
 	}
 	return -1;
 }
